@@ -8,10 +8,10 @@ use hifitime::{Epoch, Weekday};
 use proptest::prelude::*;
 use serde::{Deserialize, Serialize};
 
-pub const RULE: &str = "exhaustive: all 7 x 256 weekday/u8 combinations for + - += -= and From<u8>/From<i8> (all 256 i8 values), all 49 weekday pairs for Weekday + Weekday and Weekday - Weekday; every calendar day of years 0001-9999 x {first ns, last ns, hashed time of day} x scales (quick: one scale and one time-of-day class per day, rotating; thorough: all) for weekday(), weekday_utc(), next(), previous() with a rotating target weekday; plus generated epochs with times of day within 1 us of midnight; oracle = integer arithmetic mod 7 and the civil weekday of the model's TAI / UTC date (1900-01-01 = Monday); non-trivial = integer >= 7 (wraps), date before 1900, time of day within 1 us of midnight, or scale != TAI";
+pub const RULE: &str = "exhaustive: all 7 x 256 weekday/u8 combinations for + - += -= and From<u8>/From<i8> (all 256 i8 values), all 49 weekday pairs for Weekday + Weekday and Weekday - Weekday; every calendar day of years 0001-9999 x {first ns, last ns, hashed time of day} x scales (quick: one scale and one time-of-day class per day, rotating; thorough: all) for weekday(), weekday_utc(), next(), previous() with a rotating target weekday; plus generated epochs with times of day within 1 us of midnight of their own calendar and, in every scale, within 2 us of a TAI / UTC / TT midnight; oracle = integer arithmetic mod 7 and the civil weekday of the model's TAI / UTC date (1900-01-01 = Monday); non-trivial = integer >= 7 (wraps), date before 1900, time of day within 1 us of midnight, or scale != TAI";
 
 pub const ASSUMPTIONS: &[&str] = &[
-    "weekday() is compared with the civil weekday of the model's TAI date of the instant, weekday_utc() with that of the model's UTC date; ET/TDB epochs are skipped within 1 us of a TAI/UTC midnight (their conversion is exact only to nanoseconds)",
+    "weekday() is compared with the civil weekday of the model's TAI date of the instant, weekday_utc() with that of the model's UTC date; ET/TDB epochs are skipped within 100 ns of a TAI/UTC/TT midnight (their conversion is required by C07 to be accurate to 30 ns, not exact)",
     "next(w)/previous(w): exactly k whole days in the epoch's own scale with k = ((w - weekday(e)) mod 7) or 7; the result's weekday() is w except within 11 s of a TAI midnight, where the offset change at a leap entry inside the interval (10 s on 1972-01-01, 1 s afterwards) can move the TAI date",
     "next/previous_weekday_at_midnight/_at_noon are anchored but not defined by the statement; asserted is only their documented construction (next/previous, then the time of day replaced by 00:00:00 / 12:00:00 counted from the scale's reference epoch) and only for results on or after that reference epoch, where 'time of day' of a count is unambiguous",
     "weekday_in_time_scale is asserted for TAI, UTC and TT only (its documentation: correct only if the scale's reference epoch is a Monday)",
@@ -100,8 +100,23 @@ fn wd_strategy() -> BS<Wd> {
         (2, ns1900_0001_9999()),
         (1, (0usize..28, near_offset()).prop_map(|(i, off)| leap_entries_ns()[i].0 + off).boxed()),
     ]);
-    (g, 0usize..9, 0u8..7).prop_map(|(g, s, target)| Wd { g, s, target }).boxed()
+    let free = (g, 0usize..9, 0u8..7).prop_map(|(g, s, target)| Wd { g, s, target }).boxed();
+    // instants within 2 us of a TAI / UTC / TT midnight, expressed in every scale (for an epoch stored in
+    // another scale the accessor's midnight is not a midnight of its own calendar)
+    let near_accessor_midnight = (day_0001_9999(), -2000i128..2000, 0usize..3, 0usize..9, 0u8..7)
+        .prop_map(|(day, off, which, s, target)| {
+            let axis = [S_TAI, S_UTC, S_TT][which];
+            let tai = to_tai(axis, day as i128 * NS_D + off);
+            let cnt = from_tai(s, tai).unwrap_or(tai);
+            Wd { g: cnt + greg_offset_ns(s), s, target }
+        })
+        .boxed();
+    wunion(vec![(4, free), (1, near_accessor_midnight)])
 }
+
+/// ET/TDB epochs are not asserted this close to a midnight of the accessor's scale: the conversion is only
+/// required (C07) and observed to be accurate to some tens of nanoseconds
+const DYN_MARGIN: i128 = 100;
 
 fn is_dyn(s: usize) -> bool {
     s == S_ET || s == S_TDB
@@ -118,8 +133,8 @@ fn wd_oracle(c: &Wd) -> Verdict {
         let t = x.rem_euclid(NS_D);
         t < m || t >= NS_D - m
     };
-    if is_dyn(c.s) && near_mid(tai, 1000) {
-        return Verdict::Skip("ET/TDB epoch within 1 us of a TAI midnight");
+    if is_dyn(c.s) && near_mid(tai, DYN_MARGIN) {
+        return Verdict::Skip("ET/TDB epoch within 100 ns of a TAI midnight");
     }
     let tai_day = tai.div_euclid(NS_D) as i64;
     let wd = weekday_of_day1900(tai_day) as i64;
@@ -128,7 +143,7 @@ fn wd_oracle(c: &Wd) -> Verdict {
     // UTC accessor
     match from_tai(S_UTC, tai) {
         Some(u) => {
-            if !(is_dyn(c.s) && near_mid(u, 1000)) {
+            if !(is_dyn(c.s) && near_mid(u, DYN_MARGIN)) {
                 let uw = weekday_of_day1900(u.div_euclid(NS_D) as i64) as i64;
                 let gotu = lib!(e.weekday_utc());
                 ensure!(idx(gotu) == uw, "weekday_utc() of {} count {} = {:?}, want {}", SCALE_NAMES[c.s], cnt, gotu, WEEKDAY_LONG[uw as usize]);
@@ -140,7 +155,7 @@ fn wd_oracle(c: &Wd) -> Verdict {
     ensure!(lib!(e.weekday_in_time_scale(SCALES[S_TAI])) == got, "weekday_in_time_scale(TAI) differs from weekday()");
     {
         let tt = tai + zero_tai_ns(S_TAI) - zero_tai_ns(S_TT);
-        if !(is_dyn(c.s) && near_mid(tt, 1000)) {
+        if !(is_dyn(c.s) && near_mid(tt, DYN_MARGIN)) {
             let tw = weekday_of_day1900(tt.div_euclid(NS_D) as i64) as i64;
             let gott = lib!(e.weekday_in_time_scale(SCALES[S_TT]));
             ensure!(idx(gott) == tw, "weekday_in_time_scale(TT) of {} count {} = {:?}, want {}", SCALE_NAMES[c.s], cnt, gott, WEEKDAY_LONG[tw as usize]);
